@@ -224,14 +224,17 @@ func runC19(rc *RunCtx) {
 			}
 		})
 	}
-	if nUser >= 2 && rc.Chance(0.5) {
+	if rc.Chance(0.5) {
 		// two or three purchases with identical size and duration in one block (equal coins, equal end time): each is a
 		// gauge of its own and has to survive the round trip as such
 		qStorage = append(qStorage, func() {
 			days, bytes := int64(30+rc.Intn(700)), int64(1+rc.Intn(4000))*1_000_000_000
 			n := 2 + rc.Intn(2)
-			for k := 0; k < n && k < nUser; k++ {
-				w.tx(k, "storage.BuyStorage", &storagetypes.MsgBuyStorage{Creator: w.bech(k), ForAddress: w.bech(k), DurationDays: days, Bytes: bytes, PaymentDenom: "ujkl"})
+			for k := 0; k < n; k++ {
+				// bought for addresses that hold no plan yet, so that the prices (and with them the gauge coins) are equal
+				b := k % nUser
+				ben := sdk.AccAddress([]byte(fmt.Sprintf("c19-beneficiary-%02d--", k))).String()
+				w.tx(b, "storage.BuyStorage", &storagetypes.MsgBuyStorage{Creator: w.bech(b), ForAddress: ben, DurationDays: days, Bytes: bytes, PaymentDenom: "ujkl"})
 			}
 			rc.Count("equal_purchases_in_one_block", 1)
 		})
